@@ -4,11 +4,17 @@
 //! usage: replay_buflaws --cases FILE [--from N] [--to M] [--out FILE] [--progress FILE]
 
 use std::borrow::Cow;
+use std::future::Future;
 use std::io::Write as _;
+use std::pin::Pin;
+use std::task::{Context, Poll};
+use std::time::Duration;
 use std::panic::{AssertUnwindSafe, catch_unwind};
 use std::sync::Arc;
 
 use a10::io::{Buf, BufMut, BufMutSlice, BufSlice, IoMutSlice, IoSlice, LimitedBuf, StaticBuf};
+use a10_verif_harness::abi::Sqe;
+use a10_verif_harness::{simk, wakers};
 use serde_json::{Value, json};
 
 #[derive(Clone, Copy, Debug)]
@@ -29,6 +35,169 @@ struct Expect {
 }
 
 type Problems = Vec<Value>;
+
+// ---- the view of the kernel: what an operation using the buffer puts into its
+// submission (the crate-private `parts()` paths) must be what the public
+// accessors promise.
+struct Fixture {
+    ring: a10::Ring,
+    fd: &'static a10::AsyncFd,
+    rfd: i32,
+}
+
+thread_local! {
+    static FIXTURE: std::cell::RefCell<Option<Fixture>> = const { std::cell::RefCell::new(None) };
+}
+
+fn with_fixture<R>(f: impl FnOnce(&mut Fixture) -> R) -> R {
+    FIXTURE.with(|c| {
+        let mut c = c.borrow_mut();
+        if c.is_none() {
+            simk::install();
+            let ring = a10::Ring::config().with_submission_queue_size(8).build().expect("ring");
+            let rfd = *simk::kernel().rings.keys().next().unwrap();
+            let fdn = simk::kernel().alloc_fd();
+            let fd: &'static a10::AsyncFd = Box::leak(Box::new(unsafe { a10::AsyncFd::from_raw_fd(fdn, ring.sq()) }));
+            *c = Some(Fixture { ring, fd, rfd });
+        }
+        f(c.as_mut().unwrap())
+    })
+}
+
+/// Poll `fut` once, submit, and return the submission the kernel received.
+fn submit_one<F: Future + Unpin>(fx: &mut Fixture, fut: &mut F) -> Option<Sqe> {
+    let waker = wakers::waker(0);
+    let mut ctx = Context::from_waker(&waker);
+    if Pin::new(&mut *fut).poll(&mut ctx).is_ready() {
+        return None;
+    }
+    fx.ring.poll(Some(Duration::ZERO)).ok()?;
+    simk::kernel().rings.get(&fx.rfd).and_then(|r| r.inflight.last().map(|q| q.sqe))
+}
+
+/// Complete the operation with `res` and return the future's result.
+fn finish_one<F: Future + Unpin>(fx: &mut Fixture, fut: &mut F, sqe: &Sqe, res: i32) -> Option<F::Output> {
+    simk::kernel().complete(fx.rfd, sqe.user_data(), res, 0);
+    fx.ring.poll(Some(Duration::ZERO)).ok()?;
+    let waker = wakers::waker(0);
+    let mut ctx = Context::from_waker(&waker);
+    match Pin::new(&mut *fut).poll(&mut ctx) {
+        Poll::Ready(out) => Some(out),
+        Poll::Pending => None,
+    }
+}
+
+/// `fd.read(buf)`: the kernel must be handed exactly the pair `parts_mut()` promises
+/// and after `n` bytes the buffer must have grown by `n`.
+fn kernel_view_read<B: BufMut + 'static>(name: &str, b: B, base: usize, s: Spec1, e: &Expect, inner_len: impl FnOnce(B) -> usize, out: &mut Problems) {
+    with_fixture(|fx| {
+        let mut fut = fx.fd.read(b);
+        let Some(sqe) = submit_one(fx, &mut fut) else {
+            out.push(json!({"field": format!("{name}: read operation did not reach the kernel"), "expected": "pending", "observed": "ready"}));
+            return;
+        };
+        if sqe.len() as usize != e.pair_lens[0] {
+            out.push(json!({"field": format!("{name}: length handed to the kernel by read"), "expected": e.pair_lens[0], "observed": sqe.len()}));
+        }
+        if e.pair_lens[0] != 0 && s.cap != 0 && sqe.addr() as usize != base + e.pair_offsets[0] {
+            out.push(json!({"field": format!("{name}: address handed to the kernel by read"), "expected": e.pair_offsets[0], "observed": (sqe.addr() as usize).wrapping_sub(base)}));
+        }
+        let n = e.n.min(sqe.len() as usize).min(s.cap.saturating_sub(s.len));
+        for i in 0..n {
+            unsafe { (sqe.addr() as *mut u8).add(i).write(b'k') };
+        }
+        match finish_one(fx, &mut fut, &sqe, n as i32) {
+            Some(Ok(b)) => {
+                let got = inner_len(b);
+                if got != s.len + n {
+                    out.push(json!({"field": format!("{name}: length after a read of {n} bytes"), "expected": s.len + n, "observed": got}));
+                }
+            }
+            other => out.push(json!({"field": format!("{name}: read result"), "expected": "Ok", "observed": format!("{:?}", other.map(|r| r.map(|_| ())))})),
+        }
+    });
+}
+
+/// `fd.write(buf)`: the kernel must be handed exactly the pair `parts()` promises.
+fn kernel_view_write<B: Buf + 'static>(name: &str, b: B, base: usize, e: &Expect, out: &mut Problems) {
+    with_fixture(|fx| {
+        let mut fut = fx.fd.write(b);
+        let Some(sqe) = submit_one(fx, &mut fut) else {
+            out.push(json!({"field": format!("{name}: write operation did not reach the kernel"), "expected": "pending", "observed": "ready"}));
+            return;
+        };
+        if sqe.len() as usize != e.pair_lens[0] {
+            out.push(json!({"field": format!("{name}: length handed to the kernel by write"), "expected": e.pair_lens[0], "observed": sqe.len()}));
+        }
+        if e.pair_lens[0] != 0 && sqe.addr() as usize != base + e.pair_offsets[0] {
+            out.push(json!({"field": format!("{name}: address handed to the kernel by write"), "expected": e.pair_offsets[0], "observed": (sqe.addr() as usize).wrapping_sub(base)}));
+        }
+        let n = sqe.len() as i32;
+        match finish_one(fx, &mut fut, &sqe, n) {
+            Some(Ok(got)) if got == n as usize => {}
+            other => out.push(json!({"field": format!("{name}: write result"), "expected": n, "observed": format!("{other:?}")})),
+        }
+    });
+}
+
+fn iovecs_at(addr: u64, n: usize) -> Vec<(usize, usize)> {
+    (0..n).map(|i| unsafe { (addr as *const libc::iovec).add(i).read() }).map(|v| (v.iov_base as usize, v.iov_len)).collect()
+}
+
+fn kernel_view_readv<B: BufMutSlice<N> + 'static, const N: usize>(name: &str, b: B, bases: &[usize], caps: &[usize], e: &Expect, lens: impl FnOnce(B) -> Vec<usize>, out: &mut Problems) {
+    with_fixture(|fx| {
+        let mut fut = fx.fd.read_vectored(b);
+        let Some(sqe) = submit_one(fx, &mut fut) else {
+            out.push(json!({"field": format!("{name}: read_vectored did not reach the kernel"), "expected": "pending", "observed": "ready"}));
+            return;
+        };
+        let pairs = iovecs_at(sqe.addr(), sqe.len() as usize);
+        if sqe.len() as usize != N {
+            out.push(json!({"field": format!("{name}: number of iovecs handed to the kernel"), "expected": N, "observed": sqe.len()}));
+        } else {
+            check_pairs(&format!("{name} (as seen by the kernel, read_vectored)"), &pairs, bases, caps, e, out);
+        }
+        let mut left = e.n.min(pairs.iter().map(|p| p.1).sum());
+        let n = left;
+        for (ptr, len) in &pairs {
+            let k = left.min(*len);
+            for i in 0..k {
+                unsafe { (*ptr as *mut u8).add(i).write(b'k') };
+            }
+            left -= k;
+        }
+        match finish_one(fx, &mut fut, &sqe, n as i32) {
+            Some(Ok(b)) => {
+                let got = lens(b);
+                if n == e.n && got != e.lens_after {
+                    out.push(json!({"field": format!("{name}: lengths after a vectored read of {n} bytes"), "expected": e.lens_after, "observed": got}));
+                }
+            }
+            other => out.push(json!({"field": format!("{name}: read_vectored result"), "expected": "Ok", "observed": format!("{:?}", other.map(|r| r.map(|_| ())))})),
+        }
+    });
+}
+
+fn kernel_view_writev<B: BufSlice<N> + 'static, const N: usize>(name: &str, b: B, bases: &[usize], caps: &[usize], e: &Expect, out: &mut Problems) {
+    with_fixture(|fx| {
+        let mut fut = fx.fd.write_vectored(b);
+        let Some(sqe) = submit_one(fx, &mut fut) else {
+            out.push(json!({"field": format!("{name}: write_vectored did not reach the kernel"), "expected": "pending", "observed": "ready"}));
+            return;
+        };
+        let pairs = iovecs_at(sqe.addr(), sqe.len() as usize);
+        if sqe.len() as usize != N {
+            out.push(json!({"field": format!("{name}: number of iovecs handed to the kernel"), "expected": N, "observed": sqe.len()}));
+        } else {
+            check_pairs(&format!("{name} (as seen by the kernel, write_vectored)"), &pairs, bases, caps, e, out);
+        }
+        let n: usize = pairs.iter().map(|p| p.1).sum();
+        match finish_one(fx, &mut fut, &sqe, n as i32) {
+            Some(Ok(got)) if got == n => {}
+            other => out.push(json!({"field": format!("{name}: write_vectored result"), "expected": n, "observed": format!("{other:?}")})),
+        }
+    });
+}
 
 fn iovecs_of<T, const N: usize>(v: [T; N]) -> Vec<(usize, usize)> {
     // IoSlice / IoMutSlice wrap a `libc::iovec`.
@@ -82,6 +251,19 @@ fn run_buf(s: Spec1, e: &Expect, out: &mut Problems) {
     v.extend_from_slice(&bytes(s.len));
     let p = v.as_ptr() as usize;
     with_limit_buf("Vec<u8>", v, p, e, out);
+    // What a write operation hands to the kernel.
+    let mut v = Vec::with_capacity(s.cap);
+    v.extend_from_slice(&bytes(s.len));
+    let p = v.as_ptr() as usize;
+    match e.limit {
+        None => kernel_view_write("Vec<u8>", v, p, e, out),
+        Some(l) => kernel_view_write("LimitedBuf<Vec<u8>>", LimitedBuf::new(v, l), p, e, out),
+    }
+    let sl = leak_bytes(s.len);
+    match e.limit {
+        None => kernel_view_write("&'static [u8]", sl, sl.as_ptr() as usize, e, out),
+        Some(l) => kernel_view_write("LimitedBuf<&'static [u8]>", LimitedBuf::new(sl, l), sl.as_ptr() as usize, e, out),
+    }
     let b: Box<[u8]> = bytes(s.len).into_boxed_slice();
     let p = b.as_ptr() as usize;
     with_limit_buf("Box<[u8]>", b, p, e, out);
@@ -174,6 +356,13 @@ fn run_bufmut(s: Spec1, e: &Expect, out: &mut Problems) {
             check_bufmut("LimitedBuf<Vec<u8>>", limited, base, s, e, |b| b.into_inner().len(), out);
         }
     }
+    // What a read operation hands to the kernel.
+    let v = vec_of(s);
+    let base = v.as_ptr() as usize;
+    match e.limit {
+        None => kernel_view_read("Vec<u8>", v, base, s, e, |v| v.len(), out),
+        Some(l) => kernel_view_read("LimitedBuf<Vec<u8>>", LimitedBuf::new(v, l), base, s, e, |b| b.into_inner().len(), out),
+    }
     // extend_from_slice copies min(k, visible) bytes.
     for k in 0..=(s.cap + 1) {
         let data = vec![b'q'; k];
@@ -265,6 +454,12 @@ macro_rules! slices {
             None => check_slice::<_, $n>(concat!("[Vec<u8>; ", $n, "]"), arr, &bases, &caps, $e, $out),
             Some(l) => check_slice::<_, $n>(concat!("LimitedBuf<[Vec<u8>; ", $n, "]>"), LimitedBuf::new(arr, l), &bases, &caps, $e, $out),
         }
+        let arr: [Vec<u8>; $n] = std::array::from_fn(|i| vec_of(specs[i]));
+        let bases: Vec<usize> = arr.iter().map(|v| v.as_ptr() as usize).collect();
+        match $e.limit {
+            None => kernel_view_writev::<_, $n>(concat!("[Vec<u8>; ", $n, "]"), arr, &bases, &caps, $e, $out),
+            Some(l) => kernel_view_writev::<_, $n>(concat!("LimitedBuf<[Vec<u8>; ", $n, "]>"), LimitedBuf::new(arr, l), &bases, &caps, $e, $out),
+        }
     }};
 }
 
@@ -278,6 +473,14 @@ macro_rules! mutslices {
             None => check_mutslice::<_, $n>(concat!("[Vec<u8>; ", $n, "]"), arr, &bases, &caps, $e, |a| a.iter().map(Vec::len).collect(), $out),
             Some(l) => {
                 check_mutslice::<_, $n>(concat!("LimitedBuf<[Vec<u8>; ", $n, "]>"), LimitedBuf::new(arr, l), &bases, &caps, $e, |b| b.into_inner().iter().map(Vec::len).collect(), $out)
+            }
+        }
+        let arr: [Vec<u8>; $n] = std::array::from_fn(|i| vec_of(specs[i]));
+        let bases: Vec<usize> = arr.iter().map(|v| v.as_ptr() as usize).collect();
+        match $e.limit {
+            None => kernel_view_readv::<_, $n>(concat!("[Vec<u8>; ", $n, "]"), arr, &bases, &caps, $e, |a| a.iter().map(Vec::len).collect(), $out),
+            Some(l) => {
+                kernel_view_readv::<_, $n>(concat!("LimitedBuf<[Vec<u8>; ", $n, "]>"), LimitedBuf::new(arr, l), &bases, &caps, $e, |b| b.into_inner().iter().map(Vec::len).collect(), $out)
             }
         }
     }};
